@@ -1,5 +1,5 @@
 """Registry: which suites, oracles and trusted-base notes belong to which property."""
-from suites import gens, system
+from suites import gens, system, tower
 
 
 def c01_suites(tier):
@@ -30,6 +30,14 @@ def c07_suites(tier):
     return [system.StartStopSuite(), system.RandomSessionSuite()]
 
 
+def c20_suites(tier):
+    return [tower.TowerViewSuite(), system.RandomSessionSuite()]
+
+
+def c17_suites(tier):
+    return [system.GateSuite(), gens.StartRowSuite(), system.RandomSessionSuite()]
+
+
 PROPS = {
     "C01": {"suites": c01_suites},
     "C02": {"suites": c02_suites},
@@ -38,4 +46,6 @@ PROPS = {
     "C05": {"suites": c05_suites},
     "C06": {"suites": c06_suites},
     "C07": {"suites": c07_suites},
+    "C17": {"suites": c17_suites},
+    "C20": {"suites": c20_suites},
 }
